@@ -6,7 +6,7 @@ import ast
 
 from sa.cfg import cfg_of
 from sa.guards import GuardView, names_in
-from sa.index import Func, own_nodes
+from sa.index import AnalysisError, Func, own_nodes
 from sa.report import Ctx
 
 
@@ -266,6 +266,15 @@ def check_id_allocation(ctx: Ctx, oid: str):
             ctx.ob(oid, "R28 WRITER-DISCIPLINE", civ, "the encoder allocates literals only from its own counter", False, f"`{ast.unparse(n)}`", node=n)
 
 
+def _block_of(fn_node, stmt):
+    for n in ast.walk(fn_node):
+        for fld in ("body", "orelse", "finalbody"):
+            b = getattr(n, fld, None)
+            if isinstance(b, list) and any(x is stmt for x in b):
+                return b
+    raise AnalysisError("statement not found in any block")
+
+
 def check_cumulative_horizon(ctx: Ctx, oid: str):
     """The capacity clauses are emitted per time point: the scanned range must reach the last instant at which a task
     can start (an overload that first shows there is otherwise accepted).  Accepted upper ends: the latest possible
@@ -285,6 +294,19 @@ def check_cumulative_horizon(ctx: Ctx, oid: str):
     ok_hi = hi_t in ("max((s.ub + d for s, d in zip(starts, durations)))",)
     if not ok_hi and isinstance(hi, ast.BinOp) and isinstance(hi.op, ast.Add) and ast.unparse(hi.right) == "1":
         ok_hi = res(hi.left) in ("max((s.ub for s in starts))",)
+    # the literal that stands for "task i runs at t" is this instant's single start literal, or a fresh variable that every
+    # start literal of this instant implies - never one taken from elsewhere (a cache shared between instants misses the
+    # start values that only the later instant's window contains)
+    runs = [n for n in own_nodes(f.node) if isinstance(n, ast.Assign) and ast.unparse(n.targets[0]) == "running"]
+    ctx.floor("definitions of the running literal", len(runs), 1)
+    for r_ in runs:
+        v_ = ast.unparse(r_.value)
+        okr = v_ == "lits[0]"
+        if v_ == "self._new_bool_var()":
+            blk = _block_of(f.node, r_)
+            nxt = blk[blk.index(r_) + 1] if blk.index(r_) + 1 < len(blk) else None
+            okr = isinstance(nxt, ast.For) and ast.unparse(nxt.iter) == "lits" and "self._clauses.append([-" + ast.unparse(nxt.target) + ", running])" in ast.unparse(nxt)
+        ctx.ob(oid, "R16 PAIRED-EFFECTS", f, f"`{ast.unparse(r_)[:50]}`: the running literal is the instant's only start literal, or a fresh variable implied by each of the instant's start literals", okr, "a running literal that is not implied by every start value of this instant's window leaves those starts invisible to the capacity clauses: overloaded schedules become models of the CNF", node=r_)
     ctx.ob(oid, "R20 ROUND-COUNT", f, "capacity clauses are emitted for every instant from the earliest start up to and including the latest possible start", ok_lo and ok_hi, f"range({lo_t}, {hi_t}): an instant left out gets no capacity clause, so an overload that first appears there is accepted", node=loops[0])
 
 
@@ -364,6 +386,9 @@ def check_constraint_table(ctx: Ctx, oid: str):
                     t = t[len(w):-1]
             got.append(t)
         ctx.ob(oid, "R18 table", f, f"constructor of `{tag}` stores its arguments in declaration order", got == params, f"returns ({tag!r}, {', '.join(got)}) for parameters {params}", node=rets[0])
+        raw = [ast.unparse(e) for e in rets[0].value.elts[1:]]
+        loose = [p_ for p_, t_ in zip(params, raw) if p_.endswith("s") and not t_.startswith(("tuple(", "list("))]
+        ctx.ob(oid, "R17 PARAM-IMMUTABLE", f, f"constructor of `{tag}` stores a snapshot (tuple) of each collection it is given", not loose, f"`{', '.join(loose)}` stored as handed in: the constraint then changes when the caller reuses or extends that list after add(), and a generator is empty from the second encoding on - later solves of the same model see another constraint than the first", node=rets[0])
         calls = arms.get(tag)
         ok = calls is not None and len(calls) == 1
         why = "no arm in the encoder's dispatcher" if calls is None else ""
@@ -429,6 +454,13 @@ SMALL_ENCODERS = {
     "SATEncoder._encode_ne_var": ["common = set(var1.bool_vars.keys()) & set(var2.bool_vars.keys())", "for val in common:\n        self._clauses.append([-var1.bool_vars[val], -var2.bool_vars[val]])"],
 }
 LARGER_ENCODERS = {
+    "SATEncoder._encode_cumulative": [
+        "lits = [starts[i].bool_vars[s] for s in range(max(starts[i].lb, t - durations[i] + 1), min(starts[i].ub, t) + 1) if s in starts[i].bool_vars]",
+        "if not lits:\n                continue",
+        "if len(lits) == 1:\n                running = lits[0]\n            else:\n                running = self._new_bool_var()\n                for lit in lits:\n                    self._clauses.append([-lit, running])",
+        "active_lits.append(running)\n            active_demands.append(demands[i])",
+        "if not active_lits:\n            continue\n        self._encode_capacity_constraint(active_lits, active_demands, capacity)",
+    ],
     "SATEncoder._encode_sum_eq": [
         "if n == 0:\n        if target != 0:\n            self._clauses.append([])\n        return",
         "if target < min_sum or target > max_sum:\n        self._clauses.append([])\n        return",
